@@ -22,9 +22,25 @@ def _nolineage_runs(prop, tier):
             for a in ("UserAddEdge", "UserDeleteEdge", "UserDeleteNode", "UserAddNode", "UserSwapPredecessors")]
 
 
+def _history_lemma(prop, tier):
+    """undo / redo part of the 'after every accepted user action, undo or redo' properties (harness/history_real.py)"""
+    from harness import history_real
+    from .core import Run
+
+    n = 5 if tier == "quick" else 7
+    return [Run(f"history_lemma:len<={n}", history_real.harness, dict(length=n, for_prop=prop),
+                history_real.replay_for(prop), ("completed",),
+                f"every sequence over {{edit, undo, redo}} of length {n} on the real ActionHistory / Tracks.undo / redo "
+                f"with abstract exactly-invertible edits: inverses are applied only in the post-state of their action, "
+                f"so undo / redo revisit edit-produced states only (a failing sequence is instantiated with concrete "
+                f"user actions on a real SolutionTracks and judged by this property's concrete oracle)")]
+
+
 def _step(prop, tier, seed, actions, extra_assume=(), base=(), seg=(), extra_runs=()):
     runs = (list(extra_runs) + R.step_runs(prop, tier, actions) + R.base_runs(prop, tier, base)
             + R.seg_runs(prop, tier, list(seg)))
+    if prop in ("C03", "C04", "C05", "C06"):
+        runs += _history_lemma(prop, tier)
     if prop in ("C01", "C03", "C04", "C06", "C11"):
         runs += _nolineage_runs(prop, tier)
     return run_property(prop, tier, runs, explanation=R.EXPL,
@@ -306,16 +322,38 @@ def C14(tier, seed):
                             f"key mapping that corresponds to what the exporter wrote",
                             fallback_obligations=("C14.reimport_accepted", "C14.same_nodes", "C14.same_edges",
                                                   "C14.same_times", "C14.same_positions", "C14.same_track_ids")))
+    INT_OBL = ("C14.reimport_accepted", "C14.same_nodes", "C14.same_edges", "C14.same_times", "C14.same_positions",
+               "C14.same_track_ids", "C14.same_lineage_ids", "C14.same_segmentation", "C14.same_scale",
+               "C14.same_registry", "C14.same_loaded_features")
+    ivariants = [("", dict(seg=False)), (":per_axis_pos", dict(seg=False, multi_pos=True)),
+                 (":numpy_positions", dict(seg=False, pos_ndarray=True)),
+                 (":symbolic_scale", dict(seg=False, scale="symbolic", N=2)),
+                 (":descending_node_order", dict(seg=False, node_order="reversed")),
+                 (":seg", dict(seg=True, shape=(2, 1, 2), N=2, pos_ndarray=True)),
+                 (":seg:symbolic_scale:uint8", dict(seg=True, shape=(2, 1, 2), N=2, scale="symbolic", seg_dtype="uint8")),
+                 (":3D:numpy_positions", dict(seg=False, shape=(3, 1, 1, 1), pos_ndarray=True, N=2 if tier == "quick" else 3))]
+    for name, extra in ivariants:
+        cfg = dict(N=3, op="internal", select=False)
+        cfg.update(extra)
+        runs.append(Run(f"roundtrip:internal{name}:N={cfg['N']}", roundtrip.internal_harness, cfg, roundtrip.replay,
+                        ("roundtrip",),
+                        f"every valid solution on <= {cfg['N']} node slots (forest shape, times, ids symbolic), coordinates "
+                        f"and loaded measurements arbitrary reals, label array cells symbolic; save_tracks then "
+                        f"load_tracks(solution=True) through an ideal directory", fallback_obligations=INT_OBL))
     return run_property("C14", tier, runs, explanation=R.EXPL, seed=seed, assumptions=EXPORT_ASSUME + [
         "IDEAL STORE between the two halves: geff.write followed by read_to_memory returns the node ids, edges and one "
         "value array per attribute of the written graph (absent attribute = missing); DataFrame.to_csv followed by "
         "read_csv returns the same table with empty fields as missing values.  What zarr / geff / pandas really do "
         "with the values (dtypes, text formatting) is outside the claim; counterexamples are replayed through the "
         "real files",
+        "IDEAL DIRECTORY for the internal format: json.load after json.dump returns the dumped value with dict keys "
+        "as strings and tuples as lists, numbers unchanged, any non-JSON object refused with TypeError; np.load after "
+        "np.save returns an equal array of the same dtype (float formatting, NaN, pickling outside)",
         "claimed: nodes, edges, times, positions, track ids after GEFF and CSV round trips of tracks without "
-        "segmentation; NOT claimed: the internal save format (its content is json / np.save conversion), segmentation "
+        "segmentation; internal format: additionally lineage ids, loaded measurements (area), segmentation cells and "
+        "dtype, scale (symbolic voxel sizes) and the feature registry.  NOT claimed: GEFF segmentation "
         "round trips (position / mask consistency is needed for the importer's segmentation check), display-name "
-        "CSV headers, subset exports, loaded computed features"],
+        "CSV headers, subset exports, loaded computed features through GEFF / CSV"],
         stubs=EXPORT_STUBS + ["geff read_to_memory / GeffMetadata.read -> ideal store", "pandas DataFrame -> _Frame model"])
 
 
@@ -359,6 +397,8 @@ def C13(tier, seed):
 
 def _seg(prop, tier, seed, specs, enable=(), extra_runs=(), extra_assume=()):
     runs = list(extra_runs) + R.seg_runs(prop, tier, specs) + R.enable_runs(prop, tier, enable)
+    if prop in ("C07", "C08", "C09"):
+        runs += _history_lemma(prop, tier)
     return run_property(prop, tier, runs, explanation=R.EXPL, seed=seed,
                         assumptions=R.STEP_ASSUME + R.SEG_ASSUME + list(extra_assume), stubs=R.SEG_STUBS)
 
@@ -676,6 +716,10 @@ def replay_file(prop, path):
         from harness import history
 
         fn = history.replay
+    if run.startswith("history_lemma"):
+        from harness import history_real
+
+        fn = history_real.replay_for(prop)
     if run.startswith(("seg:", "enable:")):
         fn = seg_replay.replay
     elif run.startswith("unique"):
